@@ -327,6 +327,18 @@ pub fn frames_for(cookies: &HashMap<crate::model::FlowKey, u32>, thorough: bool)
         v.push((format!("foreign-dst-echo-{}", v6), vec![], g.icmp_echo(1, 1, b"x")));
         v.push((format!("foreign-dst-udp-{}", v6), vec![], g.udp(b"GET / HTTP/1.1\r\n\r\n")));
     }
+    // source MAC alphabet (own MAC, broadcast, multicast, zero) on frames that are answered
+    for (n, smac) in [("src-own-mac", crate::driver::MAC_SRV), ("src-bcast", [0xff; 6]), ("src-mcast", [0x01, 0, 0x5e, 0, 0, 1]), ("src-zero", [0; 6])] {
+        for v6 in [false, true] {
+            let mut f = flow(v6, 40000, 80);
+            f.cmac = smac;
+            v.push((format!("{}-echo-{}", n, v6), vec![], f.icmp_echo(1, 1, b"x")));
+            v.push((format!("{}-syn-{}", n, v6), vec![], f.tcp(1, 0, F_SYN, b"")));
+            v.push((format!("{}-stun-{}", n, v6), vec![], f.udp(&stun_magic(&[], &ID12))));
+        }
+        v.push((format!("{}-arp", n), vec![], eth(&[0xff; 6], &smac, ET_ARP, &Arp::request(smac, [10, 0, 0, 9], [10, 0, 0, 1]).bytes())));
+        v.push((format!("{}-ns", n), vec![], eth(&crate::driver::MAC_SRV, &smac, ET_IP6, &nd_ns(&cli6(), &srv6(), &srv6(), &slla(&smac), 0))));
+    }
     // replies of every size class: echo requests whose reply reaches and exceeds a 1500-byte MTU
     for n in [1400usize, 1471, 1472, 1473, 1480, 1500, 2000, 4000, 9000] {
         for v6 in [false, true] {
